@@ -71,7 +71,7 @@ check(
     "one stage (sampler queue, UpdateSamples in flight, raw samples, driver store, hand-over message, race control), everything is at race control "
     "when the race completes, only a full queue drops samples, and the final record table holds exactly one latency/service_time/processing_time "
     "record per executed request with the right meta data. Model checked by TLC for every interleaving of shipments, periodic post-processing "
-    "ticks and step boundaries; checked on recorded executions of the real actors (queue sizes 1, 2, unbounded) by TLC trace validation.",
+    "ticks and step boundaries; checked on recorded executions of the real actors (queue sizes 1, 2, unbounded) by TLC trace validation. A high-volume leg queues 40,000+ samples in a real worker when its task ends: all must leave the worker unless the queue is full at its configured size.",
     "Bounds as C01; downsampling factor 1 only; in-memory metrics store; race control is an endpoint that keeps the received metrics payloads.",
     "TLA+ actor-protocol spec + TLC model checking; replay of TLC behaviours into the real actors; TLC trace validation",
     engine="tlc+simactor",
@@ -220,7 +220,8 @@ check(
     "C05",
     "Same specification and legs as C04 (ClientLoop.tla); clauses: exact iteration count, warm-up flags by iteration or by decision instant (one straddling request free), no request decided "
     "after warm-up period + time period, sample type / progress / scheduled time monotone, progress in [0,1] and exactly 1 at the end of iteration-based tasks, deterministic gap = weight*C/T, "
-    "first yield at ramp-up*i/total.",
+    "first yield at ramp-up*i/total. Element leg: parallels with ramp-up through the real Allocator/AsyncIoAdapter; runners exposing completed/percent_completed; driver progress leg: "
+    "DriverProgress.tla against the progress the REAL Driver reports across consecutive tasks (range, monotone within a task, never above the samples received).",
     "As C04, plus warm-up 0..2 x iterations 1..3, warm-up period 0..3(4) x time period 1..4 ticks, ramp-up for client 1 of 2 and clients 1 and 3 of 4.",
     "timed TLA+ spec + TLC exhaustive checking; spec-to-code replay of TLC behaviours on a virtual clock; TLC trace validation",
     engine="tlc+vclock",
